@@ -358,6 +358,10 @@ func (v *env) chunkCheck(cs chunks.ChunkStore, h hash.Hash, k kase) {
 		}
 		toks = append(toks, fmt.Sprintf("%s.%s:%s", f.Table, f.Field, strings.Join(ns, ",")))
 	}
+	if len(toks) > 0 {
+		// one evaluated case per decoded chunk (oracle 2 ran on it, with or without a model)
+		v.e.Rep.Count(kind+"|"+strings.Join(fieldNames(fs), ","), nontrivial || len(fs) > 1)
+	}
 	// CORRESPONDENCE with the generated model
 	if v.m != nil && len(toks) > 0 {
 		sort.Strings(toks)
@@ -372,8 +376,6 @@ func (v *env) chunkCheck(cs chunks.ChunkStore, h hash.Hash, k kase) {
 		sort.Ints(impl)
 		want := "w=" + hx.NatList(impl)
 		got := strings.SplitN(resp, " ", 2)[0]
-		canon := kind + "|" + strings.Join(fieldNames(fs), ",")
-		v.e.Rep.Count(canon, nontrivial || len(fs) > 1)
 		if len(v.e.Rep.Samples) < 6 && nontrivial {
 			v.e.Rep.Sample(line + " -> " + resp)
 		}
@@ -641,6 +643,100 @@ func (v *env) leafCase(k kase) {
 	}
 }
 
+// putAddr stores an out-of-band address in field i of the tuple under construction.
+func putAddr(vb *val.TupleBuilder, i int, enc val.Encoding, addr hash.Hash, n int) {
+	switch enc {
+	case val.BytesAddrEnc:
+		vb.PutBytesAddr(i, addr)
+	case val.StringAddrEnc:
+		vb.PutStringAddr(i, addr)
+	case val.JSONAddrEnc:
+		vb.PutJSONAddr(i, addr)
+	case val.CommitAddrEnc:
+		vb.PutCommitAddr(i, addr)
+	case val.GeomAddrEnc:
+		vb.PutGeometryAddr(i, addr)
+	case val.BytesAdaptiveEnc, val.StringAdaptiveEnc:
+		vb.PutAdaptiveFromOutline(i, int64(n), addr)
+	}
+}
+
+// leafNullCase: rows in which one address-capable field is NULL and another holds an out-of-band
+// address, in both column orders, for every pair of encodings, with a second all-populated row
+// next to it — through the real ProllyMapSerializer.  Every address put into a field must be
+// reported by the real leaf walker.
+func (v *env) leafNullCase(k kase) {
+	e := v.e
+	ctx := v.ctx
+	ts := &chunks.TestStorage{}
+	var cs chunks.ChunkStore = ts.NewViewWithDefaultFormat()
+	ns := tree.NewNodeStore(cs)
+	rng := hx.NewRng(k.Seed ^ 0x5eed)
+	encs := []val.Encoding{val.BytesAddrEnc, val.StringAddrEnc, val.JSONAddrEnc, val.BytesAdaptiveEnc, val.StringAdaptiveEnc}
+	mk := func() (hash.Hash, int) {
+		payload := rng.Bytes(2100 + rng.Intn(6000))
+		_, addr, err := tree.SerializeBytesToAddr(ctx, ns, strings.NewReader(string(payload)), len(payload))
+		if err != nil {
+			panic(err)
+		}
+		return addr, len(payload)
+	}
+	bp := pool.NewBuffPool()
+	for _, e1 := range encs {
+		for _, e2 := range encs {
+			for _, nullFirst := range []bool{true, false} {
+				vd := val.NewTupleDescriptor(val.Type{Enc: val.Int64Enc}, val.Type{Enc: e1, Nullable: true}, val.Type{Enc: e2, Nullable: true}, val.Type{Enc: val.Int64Enc, Nullable: true})
+				kd := val.NewTupleDescriptor(val.Type{Enc: val.Int64Enc})
+				var keys, vals [][]byte
+				var want []hash.Hash
+				// row 0: one field NULL, the other out-of-band; row 1: both out-of-band
+				for row := 0; row < 2; row++ {
+					kb := val.NewTupleBuilder(kd, ns)
+					kb.PutInt64(0, int64(row))
+					key, _ := kb.Build(ctx, bp)
+					vb := val.NewTupleBuilder(vd, ns)
+					vb.PutInt64(0, int64(100+row))
+					for f, enc := range []val.Encoding{e1, e2} {
+						isNull := row == 0 && ((f == 0) == nullFirst)
+						if isNull {
+							continue
+						}
+						a, n := mk()
+						putAddr(vb, f+1, enc, a, n)
+						want = append(want, a)
+					}
+					vb.PutInt64(3, 7)
+					value, err := vb.Build(ctx, bp)
+					if err != nil {
+						e.Rep.Disagree(k, "tuple build: "+err.Error(), "", "generator")
+						return
+					}
+					keys, vals = append(keys, key), append(vals, value)
+				}
+				msg := message.NewProllyMapSerializer(vd, ns.Pool()).Serialize(keys, vals, []uint64{1, 1}, 0)
+				reported := hash.HashSet{}
+				if werr := message.WalkAddresses(ctx, msg, func(_ context.Context, a hash.Hash) error { reported.Insert(a); return nil }); werr != nil {
+					e.Rep.Violate("walker-error:leaf-null", werr.Error(), k)
+					continue
+				}
+				pos := "second"
+				if nullFirst {
+					pos = "first"
+				}
+				shape := fmt.Sprintf("%s,%s,null-%s", encName(e1), encName(e2), pos)
+				e.Rep.Count("leaf-null|"+shape, true)
+				e.Rep.Hit("leaf-null-rows")
+				for _, a := range want {
+					if !reported.Has(a) {
+						v.missing("ProllyTreeNode.value_items[NULL field next to out-of-band field]",
+							fmt.Sprintf("leaf with value fields (%s): a row with one NULL address-capable field holds chunk address %s in the other field; the serializer records %d of %d addresses in value_address_offsets, walkProllyMapAddresses does not report it", shape, a, reported.Size(), len(want)), k)
+					}
+				}
+			}
+		}
+	}
+}
+
 // idHandler: identity child handler (values are byte strings)
 type idHandler struct{}
 
@@ -684,6 +780,7 @@ func (v *env) run(k kase) {
 			v.repoCase(k)
 		case "leaf":
 			v.leafCase(k)
+			v.leafNullCase(k)
 		}
 		return ""
 	})
@@ -696,9 +793,13 @@ func main() {
 	e := hx.Init("walkaddrs", "C09")
 	defer e.Finish()
 	v := &env{e: e, ctx: context.Background(), kinds: map[string]int{}}
-	if e.ModelBin != "" {
+	if e.ModelBin != "" && !e.NoModel {
 		v.m = e.MustModel()
 		defer v.m.Close()
+	} else {
+		// -nomodel (the Lean driver could not be built) or no driver given: the two oracles on the
+		// implementation still run; every model comparison is skipped (v.m == nil)
+		e.Rep.Note("walkaddrs: oracle-only run, model comparisons skipped")
 	}
 	e.Rep.Rule = "a chunk counts as non-trivial when its object populates more than one address field or a sub-table / embedded message; distinct by (kind, populated fields, multiplicity class)"
 	if e.Replay != "" {
